@@ -158,10 +158,19 @@ def check(ctx):
         par7 = {c_: p_ for p_ in ast.walk(so.node) for c_ in ast.iter_child_nodes(p_)}
         bound = par7.get(hook_calls[0])
         var = norm(bound.targets[0]) if isinstance(bound, ast.Assign) else None
-        dr = [a for a in walk_no_nested(so.node) if isinstance(a, ast.Assign) and norm(a.targets[0]) == "dependent_required" and isinstance(a.value, ast.DictComp)]
-        used = bool(var) and len(dr) == 1 and isinstance(dr[0].value.value, (ast.ListComp, ast.GeneratorExp)) and any(f"not in {var}" in norm(i_) for i_ in dr[0].value.value.generators[0].ifs) \
-            and any(f"not in {var}" in norm(i_) for i_ in dr[0].value.generators[0].ifs)
-        ctx.check(used, "C07.R5", f"{so.qualname}:filtered", None, f"`dependent_required` does not drop the omittable properties from the required lists (and the entries left empty)", so, dr[0] if dr else so.node, detail=f"req not in {var} in both filters")
+        # the required lists: every comprehension that ranges over the `reqs` of get_dependent_required(cls).items() (dict
+        # comprehension or explicit loop) filters its elements with `not in <omittable>`
+        reqs_vars, anchor = set(), None
+        for n in ast.walk(so.node):
+            tgt_it = [(g.target, g.iter) for g in n.generators] if isinstance(n, (ast.DictComp, ast.ListComp, ast.SetComp, ast.GeneratorExp)) else [(n.target, n.iter)] if isinstance(n, ast.For) else []
+            for tg, it in tgt_it:
+                if "get_dependent_required" in norm(it) and norm(it).endswith(".items()") and isinstance(tg, ast.Tuple) and len(tg.elts) == 2 and isinstance(tg.elts[1], ast.Name):
+                    reqs_vars.add(tg.elts[1].id)
+                    anchor = n
+        over_reqs = [c_ for c_ in ast.walk(so.node) if isinstance(c_, (ast.ListComp, ast.SetComp, ast.GeneratorExp)) and isinstance(c_.generators[0].iter, ast.Name) and c_.generators[0].iter.id in reqs_vars]
+        used = bool(var) and bool(over_reqs) and all(any(f"{norm(c_.generators[0].target)} not in {var}" in norm(i_) for i_ in [*c_.generators[0].ifs, *([c_.elt] if isinstance(c_, ast.GeneratorExp) else [])]) for c_ in over_reqs) \
+            and any(isinstance(c_, (ast.ListComp, ast.SetComp)) for c_ in over_reqs)
+        ctx.check(used, "C07.R5", f"{so.qualname}:filtered", None, f"`dependent_required` does not drop the omittable properties from the required lists", so, anchor if anchor is not None else so.node, detail=f"req not in {var} in every comprehension over the required names")
 
     # ---------------- generic conversions applied to user subclasses of collections (shared with C12.R11)
     from .c12 import subtyping_rule
